@@ -306,7 +306,7 @@ func runProperty(w *World, lib *SpecLib, p *Prover, id, tier string) *propRun {
 			continue
 		}
 		for _, ob := range r.Obs {
-			if sweep && ob.Kind != "nopanic" && ob.Kind != "term" {
+			if sweep && ob.Kind != "nopanic" && ob.Kind != "term" && ob.Kind != "prop" {
 				continue
 			}
 			obs = append(obs, ob)
